@@ -99,6 +99,14 @@ def main():
     chk.unit(F, 'mj_sleepTrees', C, 'math', 'opaque', extra_flags=FLAGS)
     chk.unit(F, 'mj_updateSleepInit', C, 'math', 'opaque', extra_flags=FLAGS)
     chk.unit('src/engine/engine_util_blas.c', 'mju_zero', C, 'math', 'opaque')
+    # the wake sweeps, against the weak VIEW of the two primitives (proved against the same bodies, prefix [view])
+    W = sleep.wake_contracts()
+    chk.unit(F, 'mj_wakeIsland', W, 'math', 'fp', prefix='[view]', extra_flags=FLAGS)
+    chk.unit(F, 'mj_sleepCycle', W, 'math', 'fp', prefix='[view]', extra_flags=FLAGS)
+    chk.unit('src/engine/engine_core_util.c', 'tendonLimit', {'tendonLimit': sleep.TENDON_LIMIT_BODY}, 'math', 'fp')
+    chk.unit('src/engine/engine_util_misc.c', 'mju_fillInt', {'mju_fillInt': sleep.FILL_INT}, 'math', 'opaque')
+    for fn in ('mj_wake', 'mj_wakeCollision', 'mj_wakeTendon', 'mj_wakeEquality'):
+        chk.unit(F, fn, W, 'math', 'fp', extra_flags=FLAGS)
     import time
     from vlib.report import run_isolated
     t0 = time.time()
@@ -112,10 +120,17 @@ def main():
     chk.assumptions |= {
         'the cycle a sleeping tree belongs to is described by ghost labels (cid, ord, L): the trees labelled C form one closed cycle of length L <= ntree under tree_asleep, positions counted from tree i (every finite injective closed map decomposes this way; stated mathematical fact)',
         'compiled with the repository switch MJ_DISABLE_DEBUG_TRACING: the debug-log blocks (string formatting into local buffers) are not part of the verified text',
-        'model ids in range (body_treeid, body_rootid, body_parentid, dof_bodyid): model invariants',
+        'model ids in range (body_treeid, body_rootid, body_parentid, dof_bodyid, geom_bodyid, site_bodyid, jnt_bodyid, tendon_treeid, equality object ids, flex vertex/node ranges, tree body/dof ranges): model invariants',
+        'wake sweeps: the derived flags tree_awake / body_awake are current at entry (tree_awake[t] == (tree_asleep[t] < 0), dof-less bodies static or awake) - exactly the proved postcondition of mj_updateSleepInit; the engine calls it before the sweeps (call order not under contract)',
+        'wake sweeps: domain restriction calls * ntree < 2**31 so that the int counter of woken trees cannot overflow (the true bound - each tree is woken once - needs a counting argument over cycles that the weak view does not carry)',
+        'wake sweeps are verified for normal returns: the mjERROR exits ("SHOULD NOT OCCUR" branches: corrupted cycle, contact between two sleeping trees, tendon equality) do not return',
+        'mj_wakeCollision: contract domain is geom-geom contacts (con.geom[0..1] >= 0); the flex side lookup mj_flexBody is not under contract',
+        'tendonLimit is named by a ghost array in mj_wakeTendon (a pure function of its arguments: its own body is verified separately, assigns nothing)',
+        'a file-local static scalar that the translation unit only reads (kAwake) keeps its initialiser: established by a syntactic scan of every function of the unit (vlib/cast.py)',
     }
     chk.out_of_reach += ['"sleeping trees keep bit-identical qpos across steps" and "enabling sleep changes no result while no tree is asleep": whole-pipeline relational claims',
-                         'the wake sweeps (mj_wake, mj_wakeCollision, mj_wakeEquality, mj_wakeTendon, mj_sleep): which events wake which trees - not under contract; the per-tree test treeCanSleep (exact form, tol == 0) is',
+                         'mj_sleep (which islands are put to sleep) and the sleep filter of the collision driver: not under contract',
+                         'wake sweeps: that two sleeping trees joined by a newly active equality wake when in different cycles, and that the sweeps wake nothing else than listed, are not stated (weak view of mj_wakeIsland: no cycle description)',
                          'completeness of the index lists of mj_updateSleepInit (every selected body / dof appears): needs an existential witness per element; soundness, order and bounds are proved',
                          'mj_sleepCycle returning the MINIMUM of the cycle (proved: a member of the cycle not above i; the bounded stand-in checks the minimum)']
     return chk.finish()
